@@ -65,7 +65,7 @@ def _job(args):
 
     def on_alarm(signum, frame):
         raise Budget()
-    budget = int(os.environ.get('PYVC_FN_BUDGET', '300' if not both else '1500'))
+    budget = int(os.environ.get('PYVC_FN_BUDGET', '900' if not both else '2400'))
     signal.signal(signal.SIGALRM, on_alarm)
     signal.alarm(budget)
     try:
@@ -140,6 +140,13 @@ def run_property(prop, tier='quick', seed=0, jobs=None, rebaseline=False, only=N
     if not todo:
         print('no function under contract serves %s' % prop)
         return 3
+    # longest first: the functions that took longest when the baseline was recorded start first, so that they are not starved
+    # at the end of the queue (hints only order the work; they are never a verdict)
+    try:
+        hints = json.load(open(os.path.join(ROOT, 'expected', 'cost_hints.json')))
+    except Exception:
+        hints = {}
+    todo.sort(key=lambda t_: -hints.get(t_[1], 0))
     nproc = jobs or min(16, len(todo), os.cpu_count() or 4)
     os.environ['PYVC_INNER_JOBS'] = str(max(1, min(8, (os.cpu_count() or 4) // 2)))     # only functions with many queries fork
     if nproc > 1:
@@ -345,6 +352,15 @@ def report(prop, tier, seed, results, extra, trusted, t0, rebaseline, verbose):
                             any(k['obligation'] == n for k, _ in known_lines))
         with open(p, 'w') as f:
             json.dump(allb, f, indent=0, sort_keys=True)
+        ph = os.path.join(ROOT, 'expected', 'cost_hints.json')
+        try:
+            hh = json.load(open(ph))
+        except Exception:
+            hh = {}
+        for f_ in functions:
+            hh[f_['function']] = round(max(hh.get(f_['function'], 0) * 0.5, f_['wall_s']), 1)
+        with open(ph, 'w') as f:
+            json.dump(hh, f, indent=0, sort_keys=True)
         pd = os.path.join(ROOT, 'expected', 'dead_cases.json')
         try:
             dc = json.load(open(pd))
